@@ -14,6 +14,7 @@ open OpenFGAVerif OpenFGAVerif.Proto OpenFGAVerif.Vocab OpenFGAVerif.Model OpenF
 namespace OpenFGAVerif.DriverC30
 
 structure ExpCase where
+  seq : Bool := false
   validated : Bool
   model : Vocab.Model
   stored : List Tuple
@@ -29,15 +30,16 @@ def parseTargets : Nat → List String → Option (List (String × String))
 
 def parseCase (line : String) : Option ExpCase := do
   let ts := fields line
-  let (_, ts) ← FgaCodec.expect "exp" ts
-  let (v, ts) ← FgaCodec.nat ts
+  let isSeq := ts.head? = some "seq"
+  let (v, ts) ← (if isSeq then (do let (_, ts) ← FgaCodec.expect "seq" ts; pure (1, ts))
+                 else (do let (_, ts) ← FgaCodec.expect "exp" ts; FgaCodec.nat ts) : Option (Nat × List String))
   let (m, ts) ← FgaCodec.model ts
   let (stored, ts) ← FgaCodec.tuples "tuples" ts
   let (ctx, ts) ← FgaCodec.tuples "ctx" ts
   let (_, ts) ← FgaCodec.expect "targets" ts
   let (k, ts) ← FgaCodec.nat ts
   let tg ← parseTargets k ts
-  pure { validated := v = 1, model := m, stored := stored, ctx := ctx, targets := tg }
+  pure { seq := isSeq, validated := v = 1, model := m, stored := stored, ctx := ctx, targets := tg }
 
 /-- parser of the harness' tree rendering -/
 def tree : Nat → FgaCodec.P Tree
@@ -103,6 +105,25 @@ def judge (c : ExpCase) (tgt : String × String) (impl : String) (acc : Tally) :
     | .err _ => { acc with errs := acc.errs + 1 }
   else { acc with diffs := s!"{o}#{r}: got [{impl}] want [{expected}]" :: acc.diffs }
 
+/-- a request sequence through the server: `with ctx ~ same store without ctx ~ other store without ctx`.  The two
+later answers are judged against the world WITHOUT contextual tuples (model and property); if a later answer is the
+tree of the earlier request, the message says so. -/
+def judgeSeq (c : ExpCase) (tgt : String × String) (impl : String) (acc : Tally) : Tally :=
+  match impl.splitOn " ~ " with
+  | [r1, r2, r3] =>
+    let bare := { c with ctx := [] }
+    let (o, r) := tgt
+    let withCtx := (execute c.model c.stored c.ctx o r).render
+    let without := (execute c.model c.stored [] o r).render
+    let leak (which ri : String) (acc : Tally) : Tally :=
+      if ri ≠ without && ri = withCtx then
+        { acc with viols := s!"{o}#{r}: Expand WITHOUT contextual tuples ({which}) after an Expand that carried some does not answer the tree of the stored tuples — contextual tuples outlived their request: got [{ri}] want [{without}]" :: acc.viols }
+      else acc
+    let acc := leak "same store" r2 acc
+    let acc := leak "another store" r3 acc
+    judge bare tgt r3 (judge bare tgt r2 (judge c tgt r1 acc))
+  | _ => { acc with diffs := s!"{tgt.1}#{tgt.2}: a sequence case needs three answers, got [{impl}]" :: acc.diffs }
+
 def step (c impl : String) : String :=
   match parseCase c with
   | none => "SKIP unparsable-case"
@@ -110,12 +131,12 @@ def step (c impl : String) : String :=
     if impl = "invalid-model" then "SKIP invalid-model" else
     let outs := (impl.splitOn " | ")
     if outs.length ≠ cs.targets.length then modelDiff s!"{cs.targets.length} results, got {outs.length}" else
-    let t := (cs.targets.zip outs).foldl (fun acc p => judge cs p.1 p.2 acc) {}
+    let t := (cs.targets.zip outs).foldl (fun acc p => if cs.seq then judgeSeq cs p.1 p.2 acc else judge cs p.1 p.2 acc) {}
     match t.viols.reverse, t.diffs.reverse with
     | v :: _, _ => specViol v
     | [], d :: _ => modelDiff d
     | [], [] =>
-      let cls := if t.trees = 0 then "errors-only" else if cs.ctx.isEmpty then "trees" else "trees+ctx"
+      let cls := if cs.seq then "server-sequence" else if t.trees = 0 then "errors-only" else if cs.ctx.isEmpty then "trees" else "trees+ctx"
       ok cls (t.content > 0)
 
 end OpenFGAVerif.DriverC30
